@@ -1,12 +1,15 @@
 (** Proofs for Model/RansBound.v:
     (A) the area StartEncoding reserves is large enough for everything rans_write / write_end / EndEncoding
-        write into it ([write_area_sufficient]): the classical rANS length bound in multiplicative form
-        (no real logarithm anywhere), with the explicit slack factor 5/4;
+        write into it ([write_area_sufficient], [write_area_sufficient_hist]): the classical rANS length bound in
+        multiplicative form (integer powers only, no real logarithm), with the explicit slack factor 5/4
+        ([rans_renorm_bytes_bound]: 256^(4k) * (prod p_i)^5 <= (2^P)^(5n));
     (B) Create cannot return false on the tables EncodeRawSymbols / EncodeTaggedSymbols build
-        ([create_succeeds], [create_succeeds_raw], [create_succeeds_tagged]). *)
-From Coq Require Import ZifyBool FMapPositive.
+        ([create_succeeds], [create_succeeds_raw], [create_succeeds_tagged]); on the way: the merge sort of Create
+        sorts and permutes ([sorted_desc_spec]), a repair pass keeps the probabilities ordered, the most frequent
+        symbol keeps probability >= 2 while an error is left. *)
+From Coq Require Import ZifyBool FMapPositive FMapFacts Sorted Permutation.
 From Draco Require Import Base.Codec Base.Bits Model.Varint Proofs.Varint_proofs Model.RansSymbol Proofs.RansSymbol_proofs
-  Model.RansBound.
+  Model.RansFloat Model.SymbolCoding Proofs.SymbolCoding_proofs Model.RansBound.
 Local Open Scope Z_scope.
 Arguments Z.add : simpl never. Arguments Z.mul : simpl never. Arguments Z.pow : simpl never.
 Arguments Z.div : simpl never. Arguments Z.modulo : simpl never. Arguments Z.sub : simpl never.
@@ -414,3 +417,853 @@ Section Area.
     lia.
   Qed.
 End Area.
+
+(** * The merge sort of Create (sorted_desc) sorts and permutes *)
+Definition pge (a b : Z * Z) : Prop := pair_ge a b = true.
+Lemma pge_total a b : pair_ge a b = false -> pge b a.
+Proof. unfold pge, pair_ge. destruct a, b; cbn [fst snd]. lia. Qed.
+Lemma pge_trans a b c : pge a b -> pge b c -> pge a c.
+Proof. unfold pge, pair_ge. destruct a, b, c; cbn [fst snd]. lia. Qed.
+Lemma pge_fst a b : pge a b -> fst b <= fst a.
+Proof. unfold pge, pair_ge. destruct a, b; cbn [fst snd]. lia. Qed.
+
+Lemma merge_desc_perm : forall l1 l2, Permutation (merge_desc l1 l2) (l1 ++ l2).
+Proof.
+  induction l1 as [|a r1 IH]; intros l2.
+  - destruct l2; reflexivity.
+  - induction l2 as [|b r2 IH2]; [cbn; rewrite app_nil_r; reflexivity|].
+    cbn [merge_desc]. destruct (pair_ge a b).
+    + cbn [app]. constructor. apply IH.
+    + cbn [merge_desc] in IH2. rewrite IH2. apply (Permutation_middle (a :: r1) r2 b).
+Qed.
+
+Lemma merge_desc_hd : forall l1 l2 x, HdRel pge x l1 -> HdRel pge x l2 -> HdRel pge x (merge_desc l1 l2).
+Proof.
+  intros l1 l2 x H1 H2. destruct l1 as [|a r1]; [destruct l2; exact H2|].
+  destruct l2 as [|b r2]; [exact H1|]. cbn [merge_desc]. inversion H1; inversion H2; subst.
+  destruct (pair_ge a b); constructor; assumption.
+Qed.
+
+Lemma merge_desc_sorted : forall l1 l2, Sorted pge l1 -> Sorted pge l2 -> Sorted pge (merge_desc l1 l2).
+Proof.
+  induction l1 as [|a r1 IH]; intros l2 H1 H2.
+  - destruct l2; exact H2.
+  - induction l2 as [|b r2 IH2]; [exact H1|].
+    cbn [merge_desc]. inversion H1 as [|? ? Hs1 Hh1]; inversion H2 as [|? ? Hs2 Hh2]; subst.
+    destruct (pair_ge a b) eqn:E.
+    + constructor; [apply IH; assumption|]. apply merge_desc_hd; [exact Hh1|]. constructor. exact E.
+    + constructor; [apply (IH2 Hs2)|].
+      change ((fix inner (l2 : list (Z * Z)) : list (Z * Z) := match l2 with
+              | [] => a :: r1 | b0 :: r3 => if pair_ge a b0 then a :: merge_desc r1 l2 else b0 :: inner r3 end) r2)
+        with (merge_desc (a :: r1) r2).
+      apply merge_desc_hd; [|exact Hh2]. constructor. apply pge_total. exact E.
+Qed.
+
+Fixpoint runs_flat (st : list (option (list (Z * Z)))) : list (Z * Z) :=
+  match st with [] => [] | None :: s => runs_flat s | Some r :: s => r ++ runs_flat s end.
+Definition runs_sorted (st : list (option (list (Z * Z)))) : Prop :=
+  forall r, In (Some r) st -> Sorted pge r.
+
+Lemma push_run_ok : forall st run, runs_sorted st -> Sorted pge run ->
+  runs_sorted (push_run run st) /\ Permutation (runs_flat (push_run run st)) (run ++ runs_flat st).
+Proof.
+  induction st as [|[r|] s IH]; intros run Hst Hrun; cbn [push_run runs_flat].
+  - split; [|rewrite app_nil_r; reflexivity]. intros r [H|[]]. injection H as <-. exact Hrun.
+  - destruct (IH (merge_desc r run)) as (H1 & H2).
+    { intros r' Hr'. apply Hst. right. exact Hr'. }
+    { apply merge_desc_sorted; [apply Hst; left; reflexivity|exact Hrun]. }
+    split.
+    + intros r' [H|H]; [discriminate|]. apply H1. exact H.
+    + rewrite H2, merge_desc_perm. rewrite <- app_assoc. rewrite app_assoc. rewrite (Permutation_app_comm r run).
+      rewrite <- app_assoc. reflexivity.
+  - split.
+    + intros r' [H|H]; [injection H as <-; exact Hrun|]. apply Hst. right. exact H.
+    + reflexivity.
+Qed.
+
+Lemma flush_runs_ok : forall st acc, runs_sorted st -> Sorted pge acc ->
+  Sorted pge (flush_runs st acc) /\ Permutation (flush_runs st acc) (runs_flat st ++ acc).
+Proof.
+  induction st as [|[r|] s IH]; intros acc Hst Hacc; cbn [flush_runs runs_flat].
+  - split; [exact Hacc|reflexivity].
+  - destruct (IH (merge_desc r acc)) as (H1 & H2).
+    { intros r' Hr'. apply Hst. right. exact Hr'. }
+    { apply merge_desc_sorted; [apply Hst; left; reflexivity|exact Hacc]. }
+    split; [exact H1|]. rewrite H2, merge_desc_perm. rewrite <- !app_assoc.
+    rewrite app_assoc. rewrite (Permutation_app_comm (runs_flat s) r). rewrite <- app_assoc. reflexivity.
+  - apply IH; [|exact Hacc]. intros r' Hr'. apply Hst. right. exact Hr'.
+Qed.
+
+Lemma sort_runs_ok : forall l st, runs_sorted st ->
+  Sorted pge (sort_runs l st) /\ Permutation (sort_runs l st) (l ++ runs_flat st).
+Proof.
+  induction l as [|a r IH]; intros st Hst; cbn [sort_runs].
+  - destruct (flush_runs_ok st [] Hst ltac:(constructor)) as (H1 & H2). split; [exact H1|].
+    rewrite H2, app_nil_r. reflexivity.
+  - destruct (push_run_ok st [a] Hst ltac:(repeat constructor)) as (H1 & H2).
+    destruct (IH _ H1) as (H3 & H4). split; [exact H3|]. rewrite H4, H2. cbn [app].
+    symmetry. apply Permutation_middle.
+Qed.
+
+Lemma index_from_spec : forall l i p j, In (p, j) (index_from i l) <-> (i <= j /\ nth_error l (Z.to_nat (j - i)) = Some p).
+Proof.
+  induction l as [|x r IH]; intros i p j; cbn [index_from In].
+  - split; [intros []|]. intros (_ & H). destruct (Z.to_nat (j - i)); discriminate.
+  - rewrite IH. split.
+    + intros [H|(H1 & H2)].
+      * injection H as -> ->. split; [lia|]. rewrite Z.sub_diag. reflexivity.
+      * split; [lia|]. replace (Z.to_nat (j - i)) with (S (Z.to_nat (j - (i + 1)))) by lia. exact H2.
+    + intros (H1 & H2). destruct (Z.eq_dec j i) as [->|Hne].
+      * left. rewrite Z.sub_diag in H2. cbn in H2. congruence.
+      * right. split; [lia|]. replace (Z.to_nat (j - i)) with (S (Z.to_nat (j - (i + 1)))) in H2 by lia. exact H2.
+Qed.
+Lemma index_from_snd : forall l i, map snd (index_from i l) = map (fun k => i + Z.of_nat k) (seq 0 (length l)).
+Proof.
+  induction l as [|x r IH]; intros i; cbn [index_from map length seq snd]; [reflexivity|].
+  rewrite IH. f_equal; [lia|]. rewrite <- seq_shift, map_map. apply map_ext. intros; lia.
+Qed.
+
+(** What Create needs of the sorted ids: a duplicate-free enumeration of the indices 0..n-1 along which the
+    probabilities do not increase. *)
+Definition pval (probs : list Z) (i : Z) : Z := nth (Z.to_nat i) probs 0.
+Lemma sorted_desc_spec probs :
+  NoDup (sorted_desc probs) /\
+  (forall i, In i (sorted_desc probs) <-> 0 <= i < zlen probs) /\
+  StronglySorted (fun i j => pval probs j <= pval probs i) (sorted_desc probs).
+Proof.
+  unfold sorted_desc. destruct (sort_runs_ok (index_from 0 probs) [] ltac:(intros r [])) as (Hs & Hp).
+  cbn [runs_flat] in Hp. rewrite app_nil_r in Hp.
+  set (srt := sort_runs (index_from 0 probs) []) in *.
+  assert (Hids : Permutation (map snd srt) (map (fun k => 0 + Z.of_nat k) (seq 0 (length probs)))).
+  { rewrite <- index_from_snd. apply Permutation_map. exact Hp. }
+  split; [|split].
+  - eapply Permutation_NoDup; [symmetry; exact Hids|]. apply FinFun.Injective_map_NoDup; [intros a b; lia|apply seq_NoDup].
+  - intros i. split.
+    + intros Hin. eapply Permutation_in in Hin; [|exact Hids]. apply in_map_iff in Hin as (k & <- & Hk). apply in_seq in Hk. unfold zlen; lia.
+    + intros Hi. eapply Permutation_in; [symmetry; exact Hids|]. apply in_map_iff. exists (Z.to_nat i). split; [lia|]. apply in_seq. unfold zlen in Hi. lia.
+  - apply Sorted_StronglySorted in Hs; [|intros a b c; apply pge_trans].
+    assert (Hall : forall q, In q srt -> fst q = pval probs (snd q)).
+    { intros [p j] Hin. eapply Permutation_in in Hin; [|exact Hp]. apply index_from_spec in Hin as (Hj & Hn).
+      cbn [fst snd]. unfold pval. rewrite Z.sub_0_r in Hn. rewrite (nth_error_nth _ _ _ Hn). reflexivity. }
+    clear Hp Hids. induction Hs as [|q l Hs IH Hf]; cbn [map]; constructor.
+    + apply IH. intros q' Hq'. apply Hall. right. exact Hq'.
+    + rewrite Forall_forall in *. intros j Hj. apply in_map_iff in Hj as (q' & <- & Hq').
+      rewrite <- (Hall q (or_introl eq_refl)), <- (Hall q' (or_intror Hq')). apply pge_fst. apply Hf. exact Hq'.
+Qed.
+
+(** * Sums over index ranges, arrays *)
+Fixpoint fsum (g : Z -> Z) (i : Z) (n : nat) : Z := match n with O => 0 | S k => g i + fsum g (i + 1) k end.
+Lemma fsum_le g h : forall n i, (forall j, i <= j < i + Z.of_nat n -> g j <= h j) -> fsum g i n <= fsum h i n.
+Proof.
+  induction n as [|n IH]; intros i H; cbn [fsum]; [lia|].
+  specialize (IH (i + 1) (fun j Hj => H j ltac:(lia))). specialize (H i ltac:(lia)). lia.
+Qed.
+Lemma fsum_ext g h n i : (forall j, i <= j < i + Z.of_nat n -> g j = h j) -> fsum g i n = fsum h i n.
+Proof.
+  intros H. apply Z.le_antisymm; apply fsum_le; intros j Hj; rewrite (H j Hj); lia.
+Qed.
+Lemma fsum_const c : forall n i, fsum (fun _ => c) i n = c * Z.of_nat n.
+Proof. induction n as [|n IH]; intros i; cbn [fsum]; [lia|]. rewrite IH. lia. Qed.
+Lemma fsum_upd h l c : forall n i,
+  fsum (fun j => if j =? l then c else h j) i n = fsum h i n + (if (i <=? l) && (l <? i + Z.of_nat n) then c - h l else 0).
+Proof.
+  induction n as [|n IH]; intros i; cbn [fsum].
+  - destruct ((i <=? l) && (l <? i + Z.of_nat 0)) eqn:E; lia.
+  - rewrite IH. destruct (i =? l) eqn:E1.
+    + assert (i = l) by lia. subst. destruct ((l + 1 <=? l) && (l <? l + 1 + Z.of_nat n)) eqn:E2; [lia|].
+      destruct ((l <=? l) && (l <? l + Z.of_nat (S n))) eqn:E3; lia.
+    + destruct ((i + 1 <=? l) && (l <? i + 1 + Z.of_nat n)) eqn:E2;
+      destruct ((i <=? l) && (l <? i + Z.of_nat (S n))) eqn:E3; lia.
+Qed.
+Lemma fsum_list (h : Z -> Z) : forall l i g, (forall k, (k < length l)%nat -> g (i + Z.of_nat k) = h (nth k l 0)) ->
+  fsum g i (length l) = zsum (map h l).
+Proof.
+  induction l as [|x r IH]; intros i g H; cbn [length fsum map zsum]; [reflexivity|].
+  rewrite (IH (i + 1) g).
+  - specialize (H 0%nat ltac:(cbn; lia)). cbn [nth] in H. replace (i + Z.of_nat 0) with i in H by lia. lia.
+  - intros k Hk. specialize (H (S k) ltac:(cbn [length]; lia)). cbn [nth] in H.
+    replace (i + 1 + Z.of_nat k) with (i + Z.of_nat (S k)) by lia. exact H.
+Qed.
+
+Definition aval (a : arr Z) (i : Z) : Z := match arr_get a i with Some v => v | None => 0 end.
+Definition asum (a : arr Z) (n : nat) : Z := fsum (aval a) 0 n.
+Definition afull (a : arr Z) (n : Z) : Prop := forall i, 0 <= i < n -> arr_get a i <> None.
+
+Lemma aval_gss a i v : 0 <= i -> aval (arr_set a i v) i = v.
+Proof. intros. unfold aval. rewrite arr_gss by lia. reflexivity. Qed.
+Lemma aval_gso a i j v : 0 <= i -> 0 <= j -> i <> j -> aval (arr_set a i v) j = aval a j.
+Proof. intros. unfold aval. rewrite arr_gso by lia. reflexivity. Qed.
+Lemma afull_set a n i v : afull a n -> 0 <= i -> afull (arr_set a i v) n.
+Proof.
+  intros H Hi j Hj. destruct (Z.eq_dec j i) as [->|]; [rewrite arr_gss by lia; discriminate|].
+  rewrite arr_gso by lia. apply H. exact Hj.
+Qed.
+Lemma asum_set a n id v : 0 <= id < Z.of_nat n -> asum (arr_set a id v) n = asum a n + (v - aval a id).
+Proof.
+  intros Hid. unfold asum.
+  rewrite (fsum_ext (aval (arr_set a id v)) (fun j => if j =? id then v else aval a j)).
+  - rewrite fsum_upd. destruct ((0 <=? id) && (id <? 0 + Z.of_nat n)) eqn:E; lia.
+  - intros j Hj. destruct (j =? id) eqn:E; [assert (j = id) by lia; subst; apply aval_gss; lia|apply aval_gso; lia].
+Qed.
+Lemma aval_of_list l i : 0 <= i -> aval (arr_of_list l) i = pval l i.
+Proof.
+  intros. unfold aval, pval. rewrite arr_of_list_get by lia.
+  destruct (nth_error l (Z.to_nat i)) eqn:E; [symmetry; apply nth_error_nth; exact E|].
+  apply nth_error_None in E. symmetry. apply nth_overflow. exact E.
+Qed.
+Lemma afull_of_list l : afull (arr_of_list l) (zlen l).
+Proof. intros i Hi. rewrite arr_of_list_get by lia. apply nth_error_Some. unfold zlen in Hi. lia. Qed.
+Lemma asum_of_list l : asum (arr_of_list l) (length l) = zsum l.
+Proof.
+  unfold asum. rewrite (fsum_list (fun x => x) l 0 (aval (arr_of_list l))); [rewrite map_id; reflexivity|].
+  intros k Hk. rewrite aval_of_list by lia. unfold pval. f_equal. lia.
+Qed.
+
+Lemma read_back_full : forall l a i0, 0 <= i0 -> (forall i, i0 <= i < i0 + zlen l -> arr_get a i <> None) ->
+  exists probs, read_back a i0 l = Some probs /\ zsum probs = fsum (aval a) i0 (length l).
+Proof.
+  induction l as [|x r IH]; intros a i0 Hi H; cbn [read_back length fsum].
+  - exists []. split; reflexivity.
+  - unfold zlen in H. cbn [length] in H.
+    destruct (arr_get a i0) as [p|] eqn:Ep; [|exfalso; apply (H i0); [lia|exact Ep]].
+    destruct (IH a (i0 + 1) ltac:(lia)) as (t & Ht & Hs).
+    { intros i Hi'. apply H. unfold zlen in Hi'. lia. }
+    rewrite Ht. exists (p :: t). split; [reflexivity|]. cbn [zsum]. rewrite Hs. unfold aval at 2. rewrite Ep. reflexivity.
+Qed.
+
+(** * One adjustment of the repair loop *)
+Section Shrink.
+  Variable F : Type.
+  Variable scalef : F -> Z -> Z.
+  Definition shrink (act : F) (p : Z) : Z :=
+    let np := scalef act p in
+    let fix0 := p - np in
+    let fix1 := if fix0 =? 0 then 1 else fix0 in
+    let fix2 := if fix1 >=? p then p - 1 else fix1 in
+    p - fix2.
+  Variable act : F.
+  Hypothesis scale_range : forall p, 2 <= p -> 0 <= scalef act p <= p.
+  Hypothesis scale_mono : forall p q, 2 <= p <= q -> scalef act p <= scalef act q.
+
+  Lemma shrink_range p : 2 <= p -> 1 <= shrink act p <= p - 1.
+  Proof.
+    intros Hp. unfold shrink. pose proof (scale_range p Hp). set (np := scalef act p) in *.
+    destruct (p - np =? 0) eqn:E1; [destruct (1 >=? p) eqn:E2; lia|]. destruct (p - np >=? p) eqn:E2; lia.
+  Qed.
+  Lemma shrink_mono p q : 2 <= p <= q -> shrink act p <= shrink act q.
+  Proof.
+    intros Hp. unfold shrink. pose proof (scale_range p ltac:(lia)). pose proof (scale_range q ltac:(lia)).
+    pose proof (scale_mono p q ltac:(lia)).
+    set (np := scalef act p) in *. set (nq := scalef act q) in *.
+    destruct (p - np =? 0) eqn:E1; destruct (q - nq =? 0) eqn:E3.
+    - destruct (1 >=? p) eqn:E2; destruct (1 >=? q) eqn:E4; lia.
+    - destruct (1 >=? p) eqn:E2; destruct (q - nq >=? q) eqn:E4; lia.
+    - destruct (p - np >=? p) eqn:E2; destruct (1 >=? q) eqn:E4; lia.
+    - destruct (p - np >=? p) eqn:E2; destruct (q - nq >=? q) eqn:E4; lia.
+  Qed.
+End Shrink.
+
+Definition chain (a : arr Z) (ids : list Z) : Prop := StronglySorted (fun i j => aval a j <= aval a i) ids.
+Lemma chain_ext a b ids : (forall j, In j ids -> aval b j = aval a j) -> chain a ids -> chain b ids.
+Proof.
+  intros H Hc. induction Hc as [|i l Hs IH Hf]; constructor.
+  - apply IH. intros j Hj. apply H. right. exact Hj.
+  - rewrite Forall_forall in *. intros j Hj. rewrite (H i (or_introl eq_refl)), (H j (or_intror Hj)). apply Hf. exact Hj.
+Qed.
+
+Section Pass.
+  Variable F : Type.
+  Variable scalef : F -> Z -> Z.
+  Variable P : Z.
+  Variable n : nat.
+  Variable act : F.
+  Hypothesis scale_range : forall p, 2 <= p -> 0 <= scalef act p <= p.
+  Hypothesis scale_mono : forall p q, 2 <= p <= q -> scalef act p <= scalef act q.
+  Definition ids_ok (ids : list Z) : Prop := forall id, In id ids -> 0 <= id < Z.of_nat n.
+
+  (** a pass whose first symbol has probability >= 2 continues, keeps the sum/total/error bookkeeping, and only
+      lowers entries (never below 1) *)
+  Lemma pass_basic : forall ids first a total err, ids_ok ids -> afull a (Z.of_nat n) -> 0 <= err ->
+    (first = true -> match ids with id :: _ => 2 <= aval a id | [] => True end) ->
+    exists a' t' e', repair_pass F scalef P act ids first a total err = PCont a' t' e' /\
+      afull a' (Z.of_nat n) /\ asum a' n - t' = asum a n - total /\ t' - e' = total - err /\ 0 <= e' <= err /\
+      (forall j, ~ In j ids -> arr_get a' j = arr_get a j) /\
+      (forall j, 0 <= j -> Z.min 1 (aval a j) <= aval a' j <= Z.max (aval a j) (Z.min 1 (aval a j))).
+  Proof.
+    induction ids as [|id r IH]; intros first a total err Hids Hfull Herr Hfirst; cbn [repair_pass].
+    - exists a, total, err. repeat split; try assumption; try lia.
+    - destruct (Hids id (or_introl eq_refl)) as (Hid0 & Hidn).
+      destruct (arr_get a id) as [p|] eqn:Eg; [|exfalso; apply (Hfull id); [lia|exact Eg]].
+      assert (Hav : aval a id = p) by (unfold aval; rewrite Eg; reflexivity).
+      destruct (p <=? 1) eqn:Ep.
+      { destruct first; [specialize (Hfirst eq_refl); lia|].
+        exists a, total, err. repeat split; try assumption; try lia. }
+      pose proof (scale_range p ltac:(lia)) as Hsr.
+      destruct ((scalef act p <? 0) || (scalef act p >? p)) eqn:Eo; [lia|].
+      set (np := scalef act p) in *.
+      set (fix0 := p - np) in *.
+      set (fix1 := if fix0 =? 0 then 1 else fix0) in *.
+      set (fix2 := if fix1 >=? p then p - 1 else fix1) in *.
+      set (fix3 := if fix2 >? err then err else fix2) in *.
+      assert (Hf1 : 1 <= fix1) by (unfold fix1, fix0; destruct (p - np =? 0) eqn:E; lia).
+      assert (Hf2 : 1 <= fix2 <= p - 1) by (unfold fix2; destruct (fix1 >=? p) eqn:E; lia).
+      assert (Hf3 : 0 <= fix3 <= err /\ fix3 <= p - 1) by (unfold fix3; destruct (fix2 >? err) eqn:E; lia).
+      set (a1 := arr_set a id (p - fix3)).
+      assert (Hfull1 : afull a1 (Z.of_nat n)) by (apply afull_set; [exact Hfull|lia]).
+      assert (Hsum1 : asum a1 n = asum a n - fix3) by (unfold a1; rewrite asum_set by lia; lia).
+      assert (Hpt : forall j, 0 <= j -> Z.min 1 (aval a j) <= aval a1 j <= Z.max (aval a j) (Z.min 1 (aval a j))).
+      { intros j Hj. destruct (Z.eq_dec j id) as [->|Hne].
+        - unfold a1. rewrite aval_gss by lia. lia.
+        - unfold a1. rewrite aval_gso by lia. lia. }
+      assert (Hout : forall j, ~ In j (id :: r) -> arr_get a1 j = arr_get a j).
+      { intros j Hj. destruct (Z_lt_ge_dec j 0); [rewrite !arr_get_neg by lia; reflexivity|].
+        unfold a1. apply arr_gso; try lia. intros ->. apply Hj. left. reflexivity. }
+      destruct (total - fix3 =? 2 ^ P) eqn:Et.
+      + exists a1, (total - fix3), (err - fix3). repeat split; try assumption; try lia; apply Hpt; assumption.
+      + destruct (IH false a1 (total - fix3) (err - fix3) (fun i Hi => Hids i (or_intror Hi)) Hfull1 ltac:(lia) ltac:(discriminate))
+          as (a' & t' & e' & Hr & Hfa & Hs & Ht & He & Ho & Hp).
+        exists a', t', e'. split; [exact Hr|]. repeat split; try assumption; try lia.
+        * intros j Hj. rewrite Ho by (intros Hin; apply Hj; right; exact Hin). apply Hout. exact Hj.
+        * specialize (Hp j H). specialize (Hpt j H). lia.
+        * specialize (Hp j H). specialize (Hpt j H). lia.
+  Qed.
+
+  (** what a pass that leaves an error does to the entries it runs over *)
+  Definition pass_rel (a a' : arr Z) (j : Z) : Prop :=
+    (aval a j <= 1 /\ aval a' j = aval a j) \/ (2 <= aval a j /\ aval a' j = shrink F scalef act (aval a j)).
+
+  Lemma pass_char : forall ids first a total err a' t' e', ids_ok ids -> NoDup ids -> chain a ids ->
+    total = 2 ^ P + err ->
+    repair_pass F scalef P act ids first a total err = PCont a' t' e' -> 0 < e' ->
+    forall j, In j ids -> pass_rel a a' j.
+  Proof.
+    induction ids as [|id r IH]; intros first a total err a' t' e' Hids Hnd Hch Htot H He j Hj; [destruct Hj|].
+    cbn [repair_pass] in H.
+    destruct (Hids id (or_introl eq_refl)) as (Hid0 & Hidn).
+    apply NoDup_cons_iff in Hnd as (Hnin & Hnd'). apply StronglySorted_inv in Hch as (Hch' & Hfa). rewrite Forall_forall in Hfa.
+    destruct (arr_get a id) as [p|] eqn:Eg; [|discriminate].
+    assert (Hav : aval a id = p) by (unfold aval; rewrite Eg; reflexivity).
+    destruct (p <=? 1) eqn:Ep.
+    { destruct first; [discriminate|]. injection H as <- _ _. left. split; [|reflexivity].
+      destruct Hj as [<-|Hj]; [lia|]. specialize (Hfa j Hj). lia. }
+    destruct ((scalef act p <? 0) || (scalef act p >? p)) eqn:Eo; [discriminate|].
+    pose proof (scale_range p ltac:(lia)) as Hsr.
+    assert (Hshr : shrink F scalef act p = p - (if (if p - scalef act p =? 0 then 1 else p - scalef act p) >=? p then p - 1
+                                                 else (if p - scalef act p =? 0 then 1 else p - scalef act p))) by reflexivity.
+    set (np := scalef act p) in *.
+    set (fix0 := p - np) in *.
+    set (fix1 := if fix0 =? 0 then 1 else fix0) in *.
+    set (fix2 := if fix1 >=? p then p - 1 else fix1) in *.
+    set (fix3 := if fix2 >? err then err else fix2) in *.
+    set (a1 := arr_set a id (p - fix3)) in *.
+    destruct (total - fix3 =? 2 ^ P) eqn:Et.
+    { injection H as _ _ <-. lia. }
+    assert (Hf3 : fix3 = fix2) by (unfold fix3 in *; destruct (fix2 >? err) eqn:E; lia).
+    assert (Ha1 : forall i, In i r -> aval a1 i = aval a i).
+    { intros i Hi. destruct (Hids i (or_intror Hi)). unfold a1. apply aval_gso; try lia. intros ->. apply Hnin. exact Hi. }
+    assert (Hch1 : chain a1 r) by (apply (chain_ext a); assumption).
+    assert (Hfull_ids : ids_ok r) by (intros i Hi; apply Hids; right; exact Hi).
+    destruct Hj as [<-|Hj].
+    - right. split; [lia|].
+      (* id is not touched by the rest of the pass *)
+      assert (Hk : forall ids2 act2 f2 b tt ee b' t2 e2, ~ In id ids2 ->
+                 repair_pass F scalef P act2 ids2 f2 b tt ee = PCont b' t2 e2 -> arr_get b' id = arr_get b id).
+      { induction ids2 as [|i2 r2 IH2]; intros act2 f2 b tt ee b' t2 e2 Hn Hr; cbn [repair_pass] in Hr.
+        - injection Hr as <- _ _. reflexivity.
+        - destruct (arr_get b i2) as [q|] eqn:Eq; [|discriminate].
+          destruct (q <=? 1); [destruct f2; [discriminate|injection Hr as <- _ _; reflexivity]|].
+          destruct ((scalef act2 q <? 0) || (scalef act2 q >? q)); [discriminate|].
+          match type of Hr with context [arr_set b i2 ?v] => set (vv := v) in * end.
+          assert (Hne : i2 <> id) by (intros ->; apply Hn; left; reflexivity).
+          assert (Hb1 : arr_get (arr_set b i2 vv) id = arr_get b id).
+          { destruct (Z_lt_ge_dec i2 0); [|apply arr_gso; lia].
+            rewrite arr_get_neg in Eq by lia. discriminate. }
+          match type of Hr with (if ?c then _ else _) = _ => destruct c end.
+          + injection Hr as <- _ _. exact Hb1.
+          + rewrite (IH2 _ _ _ _ _ _ _ _ (fun Hin => Hn (or_intror Hin)) Hr). exact Hb1. }
+      unfold aval at 1. rewrite (Hk _ _ _ _ _ _ _ _ _ Hnin H). fold (aval a1 id). unfold a1. rewrite aval_gss by lia.
+      rewrite Hav, Hshr. fold fix0 fix1 fix2. lia.
+    - pose proof (IH false a1 (total - fix3) (err - fix3) a' t' e' Hfull_ids Hnd' Hch1 ltac:(lia) H He j Hj) as Hrel.
+      unfold pass_rel in *. rewrite (Ha1 j Hj) in Hrel. exact Hrel.
+  Qed.
+
+  Lemma chain_pass a a' ids : chain a ids -> (forall j, In j ids -> pass_rel a a' j) -> chain a' ids.
+  Proof.
+    intros Hc. induction Hc as [|i l Hs IH Hf]; intros H; constructor.
+    - apply IH. intros j Hj. apply H. right. exact Hj.
+    - rewrite Forall_forall in *. intros j Hj. specialize (Hf j Hj).
+      destruct (H i (or_introl eq_refl)) as [(Hi1 & Hi2)|(Hi1 & Hi2)]; destruct (H j (or_intror Hj)) as [(Hj1 & Hj2)|(Hj1 & Hj2)]; try lia.
+      + rewrite Hi2, Hj2. pose proof (shrink_range F scalef act scale_range (aval a i) Hi1). lia.
+      + rewrite Hi2, Hj2. apply (shrink_mono F scalef act scale_range scale_mono). lia.
+  Qed.
+End Pass.
+
+
+Lemma ss_app_chain l : forall ids last, StronglySorted (fun i j => pval l j <= pval l i) (ids ++ [last]) ->
+  (forall k, In k ids -> 0 <= k) ->
+  chain (arr_of_list l) ids /\ forall j, In j ids -> pval l last <= pval l j.
+Proof.
+  induction ids as [|i r IH]; intros last Hss Hpos.
+  - split; [constructor|intros j []].
+  - cbn [app] in Hss. apply StronglySorted_inv in Hss as (Hs & Hf). rewrite Forall_forall in Hf.
+    destruct (IH last Hs (fun k Hk => Hpos k (or_intror Hk))) as (H1 & H2). split.
+    + constructor; [exact H1|]. rewrite Forall_forall. intros j Hj.
+      pose proof (Hpos i (or_introl eq_refl)). pose proof (Hpos j (or_intror Hj)).
+      rewrite !aval_of_list by lia. apply Hf. apply in_or_app. left. exact Hj.
+    + intros j [<-|Hj]; [apply Hf; apply in_or_app; right; left; reflexivity|apply H2; exact Hj].
+Qed.
+
+(** * The repair loop never gives up when there are fewer used symbols than probability slots *)
+Section Loop.
+  Variable F : Type.
+  Variable relf : Z -> F.
+  Variable scalef : F -> Z -> Z.
+  Variable P : Z.
+  Hypothesis scale_range : forall total p, 2 ^ P < total -> 2 <= p -> 0 <= scalef (relf total) p <= p.
+  Hypothesis scale_mono : forall total p q, 2 ^ P < total -> 2 <= p <= q -> scalef (relf total) p <= scalef (relf total) q.
+  Variable probs0 : list Z.
+  Let n := length probs0.
+  Let M := 2 ^ P.
+  Variable ids : list Z.
+  Variable last : Z.
+  Hypothesis Hsorted : sorted_desc probs0 = ids ++ [last].
+  Hypothesis Hnn : forall p, In p probs0 -> 0 <= p.
+  Let u := zsum (map (Z.min 1) probs0).
+  Hypothesis Hu : u < M.
+  Hypothesis Htotal0 : zsum probs0 <= M + u.
+
+  Lemma ids_facts : NoDup ids /\ ~ In last ids /\ ids_ok n ids /\ 0 <= last < Z.of_nat n /\
+    (forall j, 0 <= j < Z.of_nat n -> In j ids \/ j = last) /\
+    chain (arr_of_list probs0) ids /\ (forall j, 0 <= j < Z.of_nat n -> pval probs0 last <= pval probs0 j).
+  Proof.
+    destruct (sorted_desc_spec probs0) as (Hnd & Hin & Hss). rewrite Hsorted in *. fold n in Hin. unfold zlen in Hin.
+    apply NoDup_remove in Hnd as (Hnd & Hnl). rewrite app_nil_r in Hnd, Hnl.
+    assert (Hlast : 0 <= last < Z.of_nat n) by (apply Hin, in_or_app; right; left; reflexivity).
+    assert (Hids : ids_ok n ids) by (intros i Hi; apply Hin, in_or_app; left; exact Hi).
+    assert (Hcov : forall j, 0 <= j < Z.of_nat n -> In j ids \/ j = last).
+    { intros j Hj. apply Hin in Hj. apply in_app_or in Hj as [H|[H|[]]]; [left; exact H|right; symmetry; exact H]. }
+    destruct (ss_app_chain probs0 ids last Hss (fun k Hk => proj1 (Hids k Hk))) as (Hc & Hm).
+    refine (conj Hnd (conj Hnl (conj Hids (conj Hlast (conj Hcov (conj Hc _)))))).
+    intros j Hj. destruct (Hcov j Hj) as [Hi| ->]; [apply Hm; exact Hi|lia].
+  Qed.
+
+  Definition Inv (a : arr Z) (total err : Z) : Prop :=
+    afull a (Z.of_nat n) /\ asum a n = total /\ total = M + err /\ 0 <= err /\
+    (0 < err -> chain a ids /\ aval a last = pval probs0 last /\ forall j, 0 <= j < Z.of_nat n -> 0 <= aval a j <= pval probs0 j).
+
+  Lemma pval_nonneg j : 0 <= pval probs0 j.
+  Proof.
+    unfold pval. destruct (nth_in_or_default (Z.to_nat j) probs0 0) as [H|H]; [apply Hnn; exact H|rewrite H; lia].
+  Qed.
+
+  Lemma head_ge2 a total err top r : Inv a total err -> 0 < err -> ids = top :: r -> 2 <= aval a top.
+  Proof.
+    intros (Hfull & Hsum & Htot & He0 & Hrest) He Hids. destruct (Hrest He) as (Hch & Hlast & Hb).
+    destruct ids_facts as (Hnd & Hnl & Hok & Hl & Hcov & _ & Hmin).
+    destruct (Z_lt_ge_dec (aval a top) 2) as [Hlt|]; [exfalso|lia].
+    set (m0 := pval probs0 last) in *.
+    assert (Hle1 : forall j, In j ids -> aval a j <= 1).
+    { intros j Hj. rewrite Hids in Hch, Hj. apply StronglySorted_inv in Hch as (_ & Hf). rewrite Forall_forall in Hf.
+      destruct Hj as [<-|Hj]; [lia|]. specialize (Hf j Hj). lia. }
+    set (g := fun j => if j =? last then m0 else Z.min 1 (pval probs0 j)).
+    assert (H1 : asum a n <= fsum g 0 n).
+    { apply fsum_le. intros j Hj. unfold g. destruct (j =? last) eqn:E; [assert (j = last) by lia; subst; lia|].
+      destruct (Hcov j ltac:(lia)) as [Hi|]; [|lia]. specialize (Hle1 j Hi). specialize (Hb j ltac:(lia)). lia. }
+    unfold g in H1. rewrite fsum_upd in H1.
+    assert (Hu' : fsum (fun j => Z.min 1 (pval probs0 j)) 0 n = u).
+    { unfold u, n. apply fsum_list. intros k Hk. unfold pval. do 2 f_equal. lia. }
+    rewrite Hu' in H1.
+    assert (Hr : (0 <=? last) && (last <? 0 + Z.of_nat n) = true) by lia. rewrite Hr in H1.
+    change (pval probs0 last) with m0 in H1.
+    assert (Hm0 : 0 <= m0) by apply pval_nonneg.
+    assert (H2 : m0 * Z.of_nat n <= zsum probs0).
+    { assert (Hz : fsum (pval probs0) 0 n = zsum probs0).
+      { unfold n. rewrite (fsum_list (fun x => x) probs0 0 (pval probs0)); [rewrite map_id; reflexivity|].
+        intros k Hk. unfold pval. f_equal. lia. }
+      rewrite <- Hz, <- (fsum_const m0 n 0). apply fsum_le. intros j Hj. apply Hmin. lia. }
+    assert (Hn2 : 2 <= Z.of_nat n).
+    { pose proof (f_equal (@length Z) Hsorted) as Hlen. rewrite sorted_desc_length, app_length, Hids in Hlen. cbn [length] in Hlen. fold n in Hlen. lia. }
+    destruct (Z.eq_dec m0 0) as [Hz|Hnz].
+    - rewrite Hz in H1. change (Z.min 1 0) with 0 in H1. lia.
+    - assert (Hun : u = Z.of_nat n).
+      { rewrite <- Hu'. rewrite <- (Z.mul_1_l (Z.of_nat n)), <- (fsum_const 1 n 0). apply fsum_ext.
+        intros j Hj. specialize (Hmin j ltac:(lia)). lia. }
+      assert (Z.min 1 m0 = 1) by lia.
+      assert (0 <= (Z.of_nat n - 2) * (M - 1 - Z.of_nat n)) by (apply Z.mul_nonneg_nonneg; lia).
+      nia.
+  Qed.
+
+  Lemma loop_ok : forall fuel a total err, Inv a total err ->
+    exists a' t' e', repair_loop F relf scalef P fuel ids a total err = PCont a' t' e' /\
+      afull a' (Z.of_nat n) /\ asum a' n = t' /\ t' = M + e' /\ 0 <= e'.
+  Proof.
+    destruct ids_facts as (Hnd & Hnl & Hok & Hl & Hcov & _ & Hmin).
+    induction fuel as [|fuel IH]; intros a total err HI; pose proof HI as (Hfull & Hsum & Htot & He0 & Hrest); cbn [repair_loop].
+    - destruct (err <=? 0); exists a, total, err; repeat split; assumption.
+    - destruct (err <=? 0) eqn:Ee; [exists a, total, err; repeat split; assumption|].
+      assert (He : 0 < err) by lia. destruct (Hrest He) as (Hch & Hlast & Hb).
+      assert (Htl : 2 ^ P < total) by (unfold M in Htot; lia).
+      destruct (pass_basic F scalef P n (relf total) (fun p Hp => scale_range total p Htl Hp) ids true a total err Hok Hfull He0) as
+        (a1 & t1 & e1 & Hp & Hf1 & Hs1 & Ht1 & He1 & Ho1 & Hpt1).
+      { intros _. pose proof (fun top r => head_ge2 a total err top r HI He) as Hh. clear - Hh.
+        destruct ids as [|top r]; [exact I|]. exact (Hh top r eq_refl). }
+      rewrite Hp. apply IH. split; [exact Hf1|]. split; [lia|]. split; [unfold M in *; lia|]. split; [lia|].
+      intros He1'. split; [|split].
+      + apply (chain_pass F scalef (relf total) (fun p Hp => scale_range total p Htl Hp) (fun p q Hp => scale_mono total p q Htl Hp) a); [exact Hch|].
+        apply (pass_char F scalef P n (relf total) (fun p Hp => scale_range total p Htl Hp) ids true a total err a1 t1 e1 Hok Hnd Hch ltac:(unfold M in Htot; exact Htot) Hp He1').
+      + unfold aval. rewrite (Ho1 last Hnl). exact Hlast.
+      + intros j Hj. specialize (Hpt1 j ltac:(lia)). specialize (Hb j Hj).
+        assert (0 <= Z.min 1 (aval a j)) by (apply Z.min_glb; lia).
+        rewrite (Z.max_l (aval a j) (Z.min 1 (aval a j))) in Hpt1 by apply Z.le_min_r. lia.
+  Qed.
+End Loop.
+
+(** * Create *)
+Definition nused (freqs : list Z) : Z := zsum (map (Z.min 1) freqs).
+
+Lemma zsum_repeat0 k : zsum (repeat 0 k) = 0.
+Proof. induction k; cbn [repeat zsum]; lia. Qed.
+Lemma nused_app a b : nused (a ++ b) = nused a + nused b.
+Proof. unfold nused. rewrite map_app, zsum_app. reflexivity. Qed.
+Lemma nused_repeat0 k : nused (repeat 0 k) = 0.
+Proof. unfold nused. induction k as [|k IH]; cbn [repeat map zsum]; [reflexivity|]. rewrite IH. reflexivity. Qed.
+
+Lemma trim_freqs_facts l : 0 < zsum l ->
+  zsum (trim_freqs l) = zsum l /\ nused (trim_freqs l) = nused l /\ (forall f, In f (trim_freqs l) -> In f l).
+Proof.
+  intros Hpos. unfold trim_freqs. rewrite !rev'_rev. destruct (trim_freqs_split l) as (k & Hs).
+  set (t := rev (drop_zeros (rev l))) in *.
+  assert (Ht : t <> []).
+  { intros E. rewrite E in Hs. cbn [app] in Hs. rewrite Hs, zsum_repeat0 in Hpos. lia. }
+  assert (Hm : match t with [] => firstn 1 l | z :: l0 => z :: l0 end = t) by (destruct t; [congruence|reflexivity]).
+  rewrite Hm. split; [|split].
+  - replace (zsum l) with (zsum (t ++ repeat 0 k)) by (rewrite <- Hs; reflexivity). rewrite zsum_app, zsum_repeat0. lia.
+  - replace (nused l) with (nused (t ++ repeat 0 k)) by (rewrite <- Hs; reflexivity). rewrite nused_app, nused_repeat0. lia.
+  - intros f Hf. rewrite Hs. apply in_or_app. left. exact Hf.
+Qed.
+
+Lemma zsum_in_le l : (forall f, In f l -> 0 <= f) -> forall f, In f l -> f <= zsum l.
+Proof.
+  induction l as [|x r IH]; intros Hnn f Hf; [destruct Hf|]. cbn [zsum].
+  pose proof (zsum_nonneg r (fun y Hy => Hnn y (or_intror Hy))). pose proof (Hnn x (or_introl eq_refl)).
+  destruct Hf as [->|Hf]; [lia|]. specialize (IH (fun y Hy => Hnn y (or_intror Hy)) f Hf). lia.
+Qed.
+
+Lemma last_max_range : forall l i best bi, 0 <= i -> 0 <= bi ->
+  0 <= last_max l i best bi /\ (last_max l i best bi < i + zlen l \/ last_max l i best bi = bi).
+Proof.
+  induction l as [|p r IH]; intros i best bi Hi Hb; cbn [last_max]; [split; [lia|right; reflexivity]|].
+  unfold zlen in *. cbn [length]. rewrite Nat2Z.inj_succ.
+  destruct (p >=? best).
+  - destruct (IH (i + 1) p i ltac:(lia) Hi) as (H1 & [H2|H2]); split; try lia.
+  - destruct (IH (i + 1) best bi ltac:(lia) Hb) as (H1 & [H2|H2]); split; try lia.
+Qed.
+
+Section CreateOk.
+  Variable F : Type.
+  Variable rnd : Z -> Z -> Z.
+  Variable relf : Z -> F.
+  Variable scalef : F -> Z -> Z.
+  Variable P : Z.
+  Hypothesis HP : 0 <= P <= 20.
+  (** What is assumed of the three double-precision steps (everything else about them is free):
+      O1  the rounded share of a symbol is not negative and exceeds the exact share f/t * 2^P by at most 1;
+      O4  f/f * 2^P rounds to at most 2^P (in IEEE arithmetic f/f = 1 exactly);
+      O2  floor(rel * p) lies in [0, p] for rel = 2^P / total with total > 2^P (so rel < 1) and p >= 2;
+      O3  floor(rel * p) is monotone in p there (rounding is monotone). *)
+  Hypothesis rnd_ok : forall t f, 0 < t -> 0 < f <= t -> 0 <= rnd t f /\ rnd t f * t <= f * 2 ^ P + t.
+  Hypothesis rnd_one : forall t, 0 < t -> rnd t t <= 2 ^ P.
+  Hypothesis scale_range : forall total p, 2 ^ P < total -> 2 <= p -> 0 <= scalef (relf total) p <= p.
+  Hypothesis scale_mono : forall total p q, 2 ^ P < total -> 2 <= p <= q -> scalef (relf total) p <= scalef (relf total) q.
+
+  Theorem create_succeeds freqs : (forall f, In f freqs -> 0 <= f) -> 0 < zsum freqs < 2 ^ 64 ->
+    nused freqs < 2 ^ P ->
+    exists probs, rans_create F rnd relf scalef P freqs = COk probs.
+  Proof.
+    intros Hnn HT Hused. pose proof (M_range P HP) as HM.
+    pose proof (create_terminates F rnd relf scalef P freqs) as Hterm.
+    unfold rans_create in *. set (fr := trim_freqs freqs) in *.
+    rewrite (Z.mod_small (zsum freqs)) in * by lia. set (T := zsum freqs) in *.
+    set (rt := rnd T) in *.
+    set (g := fun f : Z => let r := if f =? 0 then 0 else rt f in if (r =? 0) && (0 <? f) then 1 else r) in *.
+    set (probs0 := map g fr) in *.
+    destruct (trim_freqs_facts freqs ltac:(lia)) as (Hsum_fr & Hnu_fr & Hin_fr). fold fr in Hsum_fr, Hnu_fr, Hin_fr.
+    assert (Hfr : forall f, In f fr -> 0 <= f <= T).
+    { intros f Hf. apply Hin_fr in Hf. split; [apply Hnn; exact Hf|apply zsum_in_le; assumption]. }
+    (* the entries of the first table *)
+    assert (Hg : forall f, 0 <= f <= T -> 0 <= g f /\ Z.min 1 (g f) = Z.min 1 f /\ g f * T <= f * 2 ^ P + T * Z.min 1 f).
+    { intros f Hf. unfold g. cbv zeta. destruct (f =? 0) eqn:Ef.
+      - assert (f = 0) by lia. subst f. cbn. lia.
+      - destruct (rnd_ok T f ltac:(lia) ltac:(lia)) as (H0 & H1). fold rt in H0, H1.
+        destruct ((rt f =? 0) && (0 <? f)) eqn:Eb.
+        + split; [lia|]. split; [rewrite !Z.min_l by lia; reflexivity|]. rewrite (Z.min_l 1 f) by lia. nia.
+        + split; [lia|]. split; [rewrite !Z.min_l by lia; reflexivity|]. rewrite (Z.min_l 1 f) by lia. lia. }
+    assert (Hnn0 : forall p, In p probs0 -> 0 <= p).
+    { intros p Hp. apply in_map_iff in Hp as (f & <- & Hf). apply Hg, Hfr, Hf. }
+    assert (Hu0 : zsum (map (Z.min 1) probs0) = nused freqs).
+    { rewrite <- Hnu_fr. unfold nused, probs0. rewrite map_map. clear - Hg Hfr.
+      induction fr as [|f r IH]; cbn [map zsum]; [reflexivity|].
+      rewrite IH by (intros; apply Hfr; right; assumption). f_equal. apply Hg, Hfr. left. reflexivity. }
+    assert (Htot0 : zsum probs0 <= 2 ^ P + nused freqs).
+    { assert (H : zsum probs0 * T <= zsum fr * 2 ^ P + T * nused fr).
+      { unfold probs0, nused. clear - Hg Hfr. induction fr as [|f r IH]; cbn [map zsum]; [lia|].
+        specialize (IH (fun x Hx => Hfr x (or_intror Hx))). destruct (Hg f (Hfr f (or_introl eq_refl))) as (_ & _ & H). lia. }
+      rewrite Hsum_fr, Hnu_fr in H. fold T in H. nia. }
+    assert (Hlen0 : length probs0 = length fr) by apply map_length.
+    assert (Hfr_ne : fr <> []).
+    { intros E. rewrite E in Hsum_fr. cbn in Hsum_fr. lia. }
+    (* range checks *)
+    assert (Hall : forallb (fun r => (0 <=? r) && (r <? 2 ^ 32)) probs0 = true).
+    { apply forallb_forall. intros p Hp. pose proof (Hnn0 p Hp).
+      assert (p <= zsum probs0) by (apply zsum_in_le; assumption). change (2 ^ 32) with 4294967296. lia. }
+    rewrite Hall. cbn [negb].
+    destruct (zsum probs0 >=? 2 ^ 31) eqn:E31; [change (2 ^ 31) with 2147483648 in E31; lia|].
+    assert (Hfin : forall l, zsum l = 2 ^ P ->
+              (if (zsum l <? 0) || (zsum l >=? 2 ^ 32) then CUnmod else if zsum l =? 2 ^ P then COk l else CFalse) = COk l).
+    { intros l Hl. rewrite Hl. destruct ((2 ^ P <? 0) || (2 ^ P >=? 2 ^ 32)) eqn:E; [change (2 ^ 32) with 4294967296 in E; lia|].
+      rewrite Z.eqb_refl. reflexivity. }
+    set (a0 := arr_of_list probs0).
+    assert (Hfull0 : afull a0 (Z.of_nat (length probs0))) by apply afull_of_list.
+    assert (Hasum0 : asum a0 (length probs0) = zsum probs0) by apply asum_of_list.
+    assert (Hrb : forall a, afull a (Z.of_nat (length probs0)) -> exists probs, read_back a 0 probs0 = Some probs /\ zsum probs = asum a (length probs0)).
+    { intros a Ha. apply read_back_full; [lia|]. intros i Hi. apply Ha. unfold zlen in Hi. lia. }
+    destruct (zsum probs0 =? 2 ^ P) eqn:Eeq.
+    { exists probs0. pose proof (Hfin probs0 ltac:(lia)) as H. rewrite Eeq in H. exact H. }
+    destruct (zsum probs0 <? 2 ^ P) eqn:Elt.
+    - (* under-allocated: the surplus goes to the most frequent symbol *)
+      set (imax := last_max probs0 0 (-1) 0).
+      assert (Him : 0 <= imax < Z.of_nat (length probs0)).
+      { destruct (last_max_range probs0 0 (-1) 0 ltac:(lia) ltac:(lia)) as (H1 & H2). fold imax in H1, H2.
+        assert (0 < Z.of_nat (length probs0)) by (destruct probs0; [destruct fr; [congruence|discriminate]|cbn [length]; lia]).
+        unfold zlen in H2. lia. }
+      fold a0. destruct (arr_get a0 imax) as [p|] eqn:Eg; [|exfalso; apply (Hfull0 imax Him Eg)].
+      destruct (Hrb (arr_set a0 imax (p + (2 ^ P - zsum probs0))) ltac:(apply afull_set; [exact Hfull0|lia])) as (probs & Hr & Hs).
+      rewrite Hr. exists probs. apply Hfin. rewrite Hs, asum_set by lia. unfold aval. rewrite Eg. lia.
+    - (* over-allocated: the repair loop *)
+      assert (Hsd : sorted_desc probs0 <> []).
+      { intros E. pose proof (sorted_desc_length probs0) as Hl. rewrite E in Hl. cbn in Hl. destruct probs0; [destruct fr; [congruence|discriminate]|discriminate]. }
+      pose proof (app_removelast_last 0 Hsd) as Hsplit.
+      set (ids := removelast (sorted_desc probs0)) in *. set (lst := List.last (sorted_desc probs0) 0) in *.
+      set (err := zsum probs0 - 2 ^ P) in *.
+      destruct (loop_ok F relf scalef P scale_range scale_mono probs0 ids lst Hsplit Hnn0 ltac:(rewrite Hu0; exact Hused)
+                  ltac:(rewrite Hu0; exact Htot0) (S (Z.to_nat err)) a0 (zsum probs0) err) as (a & t & e & Hloop & Hfa & Hsa & Hta & He0).
+      { split; [exact Hfull0|]. split; [exact Hasum0|]. split; [unfold err; lia|]. split; [unfold err; lia|].
+        intros _. destruct (ids_facts P probs0 ids lst Hsplit) as (_ & _ & Hok & Hl & _ & Hch & _).
+        split; [exact Hch|]. split; [unfold a0; apply aval_of_list; lia|].
+        intros j Hj. unfold a0. rewrite aval_of_list by lia. split; [|lia].
+        unfold pval. destruct (nth_in_or_default (Z.to_nat j) probs0 0) as [H|H]; [apply Hnn0; exact H|rewrite H; lia]. }
+      fold a0 in Hterm. rewrite Hloop in *.
+      assert (He : e = 0).
+      { destruct (0 <? e) eqn:E; [|lia]. exfalso.
+        rewrite Hall in Hterm. cbn [negb] in Hterm. apply Hterm; [|lia|reflexivity].
+        (* a table of one entry cannot be over-allocated *)
+        destruct (Nat.le_gt_cases 2 (length fr)) as [H2|H1]; [left; exact H2|exfalso].
+        destruct fr as [|f [|f2 r]] eqn:Efr; [congruence| |cbn [length] in H1; lia].
+        cbn [zsum] in Hsum_fr. assert (f = T) by lia. subst f.
+        unfold probs0 in Elt, Eeq. cbn [map zsum] in Elt, Eeq. unfold g in Elt, Eeq. cbv zeta in Elt, Eeq.
+        pose proof (rnd_one T ltac:(lia)) as Hr1. fold rt in Hr1.
+        destruct (T =? 0) eqn:Ez; [lia|]. destruct ((rt T =? 0) && (0 <? T)); lia. }
+      subst e. cbn [Z.ltb Z.compare].
+      destruct (Hrb a Hfa) as (probs & Hr & Hs). rewrite Hr. exists probs. apply Hfin. lia.
+  Qed.
+End CreateOk.
+
+(** * The histograms of EncodeRawSymbolsInternal / EncodeTaggedSymbols *)
+Module PMP := FMapFacts.Properties PositiveMap.
+Module PMF := FMapFacts.Facts PositiveMap.
+
+Lemma dense_fsum (h : Z -> Z) : forall n a i, zsum (map h (dense a i n)) = fsum (fun j => h (arr_count a j)) i n.
+Proof. induction n as [|n IH]; intros a i; cbn [dense map zsum fsum]; [reflexivity|]. rewrite IH. reflexivity. Qed.
+
+Lemma cardinal_add_new {A} (m : PositiveMap.t A) k v : PositiveMap.find k m = None ->
+  PositiveMap.cardinal (PositiveMap.add k v m) = S (PositiveMap.cardinal m).
+Proof.
+  intros H. apply (PMP.cardinal_2 (x := k) (e := v)); [|intros y; reflexivity].
+  intros Hin. apply PMF.in_find_iff in Hin. congruence.
+Qed.
+Lemma cardinal_add_old {A} (m : PositiveMap.t A) k v c : PositiveMap.find k m = Some c ->
+  PositiveMap.cardinal (PositiveMap.add k v m) = PositiveMap.cardinal m.
+Proof.
+  intros H. set (m0 := PositiveMap.remove k m).
+  assert (Hn : ~ PositiveMap.In k m0) by (unfold m0; rewrite PMF.remove_in_iff; intros (Hc & _); congruence).
+  rewrite (PMP.cardinal_2 (m := m0) (x := k) (e := v) Hn).
+  - rewrite (PMP.cardinal_2 (m := m0) (m' := m) (x := k) (e := c) Hn); [reflexivity|].
+    intros y. unfold m0. rewrite PMF.add_o, PMF.remove_o. destruct (PositiveMap.E.eq_dec k y) as [<-|]; [exact H|reflexivity].
+  - intros y. unfold m0. rewrite !PMF.add_o, PMF.remove_o. destruct (PositiveMap.E.eq_dec k y); reflexivity.
+Qed.
+
+Definition cnt_inv (a : arr Z) : Prop := forall s, 0 <= s -> arr_get a s <> None -> 1 <= arr_count a s.
+
+Lemma count_syms_hist n : forall l a, (forall s, In s l -> 0 <= s < Z.of_nat n) -> cnt_inv a ->
+  cnt_inv (count_syms l a) /\
+  (forall s, 0 <= s -> arr_count (count_syms l a) s = arr_count a s + zcount s l) /\
+  fsum (arr_count (count_syms l a)) 0 n = fsum (arr_count a) 0 n + zlen l /\
+  Z.of_nat (PositiveMap.cardinal (count_syms l a)) - fsum (fun j => Z.min 1 (arr_count (count_syms l a) j)) 0 n =
+  Z.of_nat (PositiveMap.cardinal a) - fsum (fun j => Z.min 1 (arr_count a j)) 0 n.
+Proof.
+  induction l as [|x r IH]; intros a Hl Ha; cbn [count_syms zcount].
+  - split; [exact Ha|]. split; [intros; lia|]. split; [unfold zlen; cbn; lia|reflexivity].
+  - destruct (Hl x (or_introl eq_refl)) as (Hx0 & Hxn).
+    set (v := 1 + arr_count a x). set (a1 := arr_set a x v).
+    assert (Hc0 : 0 <= arr_count a x).
+    { unfold arr_count. destruct (arr_get a x) eqn:E; [|lia]. pose proof (Ha x Hx0 ltac:(congruence)) as H. unfold arr_count in H. rewrite E in H. lia. }
+    assert (Ha1 : cnt_inv a1).
+    { intros s Hs Hne. unfold a1 in *. rewrite arr_count_set by lia. destruct (s =? x) eqn:E; [unfold v; lia|].
+      rewrite arr_gso in Hne by lia. apply Ha; assumption. }
+    destruct (IH a1 (fun s Hs => Hl s (or_intror Hs)) Ha1) as (H1 & H2 & H3 & H4).
+    split; [exact H1|]. split; [|split].
+    + intros s Hs. rewrite (H2 s Hs). unfold a1. rewrite arr_count_set by lia.
+      destruct (s =? x) eqn:E1; destruct (x =? s) eqn:E2; try lia. assert (s = x) by lia. subst. unfold v. lia.
+    + rewrite H3. rewrite (fsum_ext (arr_count a1) (fun j => if j =? x then v else arr_count a j)).
+      2:{ intros j Hj. unfold a1. apply arr_count_set; lia. }
+      rewrite fsum_upd. assert ((0 <=? x) && (x <? 0 + Z.of_nat n) = true) as -> by lia.
+      unfold zlen. cbn [length]. unfold v. lia.
+    + rewrite H4. rewrite (fsum_ext (fun j => Z.min 1 (arr_count a1 j)) (fun j => if j =? x then Z.min 1 v else Z.min 1 (arr_count a j))).
+      2:{ intros j Hj. unfold a1. rewrite arr_count_set by lia. destruct (j =? x); reflexivity. }
+      rewrite (fsum_upd (fun j => Z.min 1 (arr_count a j))). assert ((0 <=? x) && (x <? 0 + Z.of_nat n) = true) as -> by lia.
+      assert (Hv : Z.min 1 v = 1) by (unfold v; apply Z.min_l; lia). rewrite Hv.
+      unfold a1, arr_set. destruct (arr_get a x) as [c|] eqn:E.
+      * pose proof (Ha x Hx0 ltac:(congruence)) as Hc1.
+        unfold arr_get in E. destruct (x <? 0) eqn:Ex; [lia|].
+        rewrite (cardinal_add_old _ _ _ c E). rewrite (Z.min_l 1 (arr_count a x)) by lia. lia.
+      * assert (Hz : arr_count a x = 0) by (unfold arr_count; rewrite E; reflexivity).
+        unfold arr_get in E. destruct (x <? 0) eqn:Ex; [lia|].
+        rewrite (cardinal_add_new _ _ _ E). rewrite Hz. change (Z.min 1 0) with 0. lia.
+Qed.
+
+Lemma cnt_inv_empty : cnt_inv (PositiveMap.empty Z).
+Proof. intros s Hs H. rewrite arr_get_empty in H. congruence. Qed.
+
+(** the frequency table the callers hand to Create: its total, its number of used symbols, and [hist_eq] *)
+Lemma hist_table n syms : (forall s, In s syms -> 0 <= s < Z.of_nat n) ->
+  let cnt := count_syms syms (PositiveMap.empty Z) in
+  let freqs := dense cnt 0 n in
+  zsum freqs = zlen syms /\ nused freqs = Z.of_nat (PositiveMap.cardinal cnt) /\ hist_eq syms freqs /\
+  (forall f, In f freqs -> 0 <= f).
+Proof.
+  intros Hs cnt freqs.
+  destruct (count_syms_hist n syms (PositiveMap.empty Z) Hs cnt_inv_empty) as (H1 & H2 & H3 & H4). fold cnt in H1, H2, H3, H4.
+  assert (Hz : forall g, g 0 = 0 -> fsum (fun j => g (arr_count (PositiveMap.empty Z) j)) 0 n = 0).
+  { intros g Hg. rewrite (fsum_ext _ (fun _ => 0)); [rewrite fsum_const; lia|]. intros j _. rewrite arr_count_empty. exact Hg. }
+  split; [|split; [|split]].
+  - assert (Hz1 : fsum (arr_count (PositiveMap.empty Z)) 0 n = 0) by (exact (Hz (fun x => x) eq_refl)).
+    assert (Hd : zsum (dense cnt 0 n) = fsum (arr_count cnt) 0 n).
+    { rewrite <- (map_id (dense cnt 0 n)). exact (dense_fsum (fun x => x) n cnt 0). }
+    unfold freqs. rewrite Hd, H3, Hz1. lia.
+  - unfold nused, freqs. rewrite dense_fsum. rewrite (Hz (Z.min 1) eq_refl) in H4. cbn in H4. lia.
+  - intros s Hs0. unfold freqs. destruct (Z_lt_ge_dec s (Z.of_nat n)) as [Hlt|Hge].
+    + rewrite (nth_error_nth _ _ 0 (dense_nth n cnt 0 (Z.to_nat s) ltac:(lia))).
+      rewrite Z.add_0_l, Z2Nat.id by lia. rewrite (H2 s Hs0), arr_count_empty. lia.
+    + rewrite nth_overflow by (rewrite dense_length; lia).
+      clear - Hs Hge. induction syms as [|x r IH]; cbn [zcount]; [reflexivity|].
+      pose proof (Hs x (or_introl eq_refl)). destruct (x =? s) eqn:E; [lia|]. apply IH. intros y Hy. apply Hs. right. exact Hy.
+  - intros f Hf. apply In_nth_error in Hf as (k & Hk). unfold freqs in Hk.
+    assert (k < n)%nat by (rewrite <- (dense_length n cnt 0); apply nth_error_Some; congruence).
+    rewrite dense_nth in Hk by lia. injection Hk as <-.
+    unfold arr_count. destruct (arr_get cnt (0 + Z.of_nat k)) eqn:E; [|lia].
+    pose proof (H1 (0 + Z.of_nat k) ltac:(lia) ltac:(congruence)) as Hc. unfold arr_count in Hc. rewrite E in Hc. lia.
+Qed.
+
+Lemma nused_le_len l : nused l <= zlen l.
+Proof.
+  unfold nused, zlen. induction l as [|x r IH]; cbn [map zsum length]; [lia|]. rewrite Nat2Z.inj_succ.
+  pose proof (Z.le_min_l 1 x). lia.
+Qed.
+
+Lemma raw_bit_length_clamp nu lvl : raw_bit_length nu lvl = raw_bit_length nu (Z.max 0 (Z.min lvl 10)).
+Proof.
+  unfold raw_bit_length.
+  destruct (lvl <? 4) eqn:E1; destruct (Z.max 0 (Z.min lvl 10) <? 4) eqn:F1; try lia;
+  destruct (lvl <? 6) eqn:E2; destruct (Z.max 0 (Z.min lvl 10) <? 6) eqn:F2; try lia;
+  destruct (lvl >? 9) eqn:E3; destruct (Z.max 0 (Z.min lvl 10) >? 9) eqn:F3; try lia;
+  destruct (lvl >? 7) eqn:E4; destruct (Z.max 0 (Z.min lvl 10) >? 7) eqn:F4; try lia.
+Qed.
+
+Section Callers.
+  Variable F : Type.
+  Variable rnd : Z -> Z -> Z.
+  Variable relf : Z -> F.
+  Variable scalef : F -> Z -> Z.
+  Variable P : Z.
+  Hypothesis rnd_ok : forall t f, 0 < t -> 0 < f <= t -> 0 <= rnd t f /\ rnd t f * t <= f * 2 ^ P + t.
+  Hypothesis rnd_one : forall t, 0 < t -> rnd t t <= 2 ^ P.
+  Hypothesis scale_range : forall total p, 2 ^ P < total -> 2 <= p -> 0 <= scalef (relf total) p <= p.
+  Hypothesis scale_mono : forall total p q, 2 ^ P < total -> 2 <= p <= q -> scalef (relf total) p <= scalef (relf total) q.
+
+  (** EncodeRawSymbols -> EncodeRawSymbolsInternal<RAnsSymbolEncoder<bit length>>::Create: the precision is derived
+      from the TRUE number of unique symbols of the array (what ComputeShannonEntropy counted), any level. *)
+  Theorem create_succeeds_raw lvl syms : syms <> [] -> (forall s, In s syms -> 0 <= s) -> zlen syms < 2 ^ 64 ->
+    let cnt := count_syms syms (PositiveMap.empty Z) in
+    let nu := Z.of_nat (PositiveMap.cardinal cnt) in
+    (if 0 <? nu then Z.log2 nu else 0) + 1 <= 18 ->
+    P = rans_precision_bits (raw_bit_length nu lvl) ->
+    exists probs, rans_create F rnd relf scalef P (dense cnt 0 (Z.to_nat (zmax_list syms + 1))) = COk probs.
+  Proof.
+    intros Hne Hs Hlen cnt nu Hb HP.
+    set (n := Z.to_nat (zmax_list syms + 1)).
+    pose proof (zmax_list_nonneg syms) as Hm0.
+    destruct (hist_table n syms) as (Hz & Hnu & _ & Hnn).
+    { intros s Hin. pose proof (zmax_list_ge syms s Hin). pose proof (Hs s Hin). unfold n. lia. }
+    fold cnt in Hz, Hnu, Hnn. fold nu in Hnu.
+    pose proof (precision_range (raw_bit_length nu lvl)) as HPr. rewrite <- HP in HPr.
+    apply create_succeeds; try assumption; try lia.
+    - rewrite Hz. unfold zlen in *. destruct syms; [congruence|cbn [length] in *; lia].
+    - rewrite Hnu.
+      assert (Hnu1 : 1 <= nu).
+      { rewrite <- Hnu. destruct syms as [|x r]; [congruence|]. clear - Hz Hnn.
+        (* a table whose total is positive has a used symbol *)
+        assert (0 < zsum (dense cnt 0 n)) by (rewrite Hz; unfold zlen; cbn [length]; lia).
+        revert H Hnn. generalize (dense cnt 0 n). intros l. unfold nused. induction l as [|f t IH]; cbn [zsum map]; [lia|].
+        intros Hpos Hnn. pose proof (Hnn f (or_introl eq_refl)).
+        destruct (Z.eq_dec f 0) as [->|].
+        - specialize (IH ltac:(lia) (fun g Hg => Hnn g (or_intror Hg))). change (Z.min 1 0) with 0. lia.
+        - assert (0 <= zsum (map (Z.min 1) t)).
+          { apply zsum_nonneg. intros q Hq. apply in_map_iff in Hq as (g & <- & Hg). pose proof (Hnn g (or_intror Hg)). apply Z.min_glb; lia. }
+          rewrite (Z.min_l 1 f) by lia. lia. }
+      assert (0 <? nu = true) as Hpos by lia. rewrite Hpos in Hb.
+      set (b := Z.log2 nu + 1) in *.
+      assert (Hrange : 2 ^ (b - 1) <= nu < 2 ^ b).
+      { unfold b. replace (Z.log2 nu + 1 - 1) with (Z.log2 nu) by lia. pose proof (Z.log2_spec nu ltac:(lia)). 
+        replace (Z.log2 nu + 1) with (Z.succ (Z.log2 nu)) by lia. lia. }
+      rewrite HP, raw_bit_length_clamp.
+      pose proof (precision_sufficient b (Z.max 0 (Z.min lvl 10)) nu ltac:(pose proof (Z.log2_nonneg nu); lia) ltac:(lia) Hrange). lia.
+  Qed.
+
+  (** EncodeTaggedSymbols -> RAnsSymbolEncoder<5>::Create on the 32 bit-length frequencies. *)
+  Theorem create_succeeds_tagged tags : tags <> [] -> (forall t, In t tags -> 0 <= t < 32) -> zlen tags < 2 ^ 64 ->
+    P = rans_precision_bits 5 ->
+    exists probs, rans_create F rnd relf scalef P (dense (count_syms tags (PositiveMap.empty Z)) 0 32) = COk probs.
+  Proof.
+    intros Hne Ht Hlen HP. assert (HP12 : P = 12) by (rewrite HP; reflexivity).
+    destruct (hist_table 32 tags Ht) as (Hz & Hnu & _ & Hnn).
+    apply create_succeeds; try assumption; try lia.
+    - rewrite Hz. unfold zlen in *. destruct tags; [congruence|cbn [length] in *; lia].
+    - pose proof (nused_le_len (dense (count_syms tags (PositiveMap.empty Z)) 0 32)) as H. unfold zlen in H. rewrite dense_length in H.
+      rewrite HP12. change (2 ^ 12) with 4096. lia.
+  Qed.
+End Callers.
+
+(** * (A) for the library's callers: the table comes from Create on the histogram of the encoded sequence *)
+Theorem write_area_sufficient_hist (F : Type) rnd (relf : Z -> F) scalef P n syms probs E st :
+  0 <= P <= 20 -> (forall s, In s syms -> 0 <= s < Z.of_nat n) ->
+  let freqs := dense (count_syms syms (PositiveMap.empty Z)) 0 n in
+  rans_create F rnd relf scalef P freqs = COk probs ->
+  ebits_ok P probs freqs E -> 0 <= E < 2 ^ 33 ->
+  rans_encode_syms P (arr_of_list (with_cum probs 0)) syms (rans_write_init P) = Some st ->
+  exists used, rans_area_used P st = Some used /\ used <= rans_reserved E /\ zlen (snd st) + 4 <= rans_reserved E.
+Proof.
+  intros HP Hs freqs Hc HE HEr Henc.
+  apply create_table_valid in Hc as (Hsum & Hl & Hnn & Hused).
+  destruct (hist_table n syms Hs) as (_ & _ & Hh & _). fold freqs in Hh.
+  apply (write_area_sufficient P HP probs Hnn Hsum syms freqs E st); try assumption.
+  - intros s Hin. destruct (Hs s Hin) as (Hs0 & Hsn). split; [exact Hs0|].
+    set (cnt := count_syms syms (PositiveMap.empty Z)) in *.
+    assert (Hc : 1 <= arr_count cnt s).
+    { destruct (count_syms_ge syms (PositiveMap.empty Z) s (fun x Hx => proj1 (Hs x Hx)) Hs0) as (_ & H2).
+      specialize (H2 Hin). rewrite arr_count_empty in H2. exact H2. }
+    assert (Hd : nth_error freqs (Z.to_nat s) = Some (arr_count cnt s)).
+    { unfold freqs. rewrite dense_nth by lia. do 2 f_equal. lia. }
+    apply trim_freqs_nth in Hd; [|lia].
+    destruct (Hused _ _ Hd ltac:(lia)) as (p & Hp & Hp1). exists p. split; assumption.
+  - intros s Hs0. rewrite (Hh s Hs0). lia.
+Qed.
